@@ -20,9 +20,9 @@
 //     size of 9.11.4.13) the value maximum is capped at 65535, the capacity of
 //     the two-octet length indicator.
 //   - Half-octet pairs of the mandatory part ("V 1/2" + "V 1/2") are one Field
-//     of one octet. TS 24.007 11.2.1.1.4 / TS 24.501 tables: the FIRST half-octet IE
-//     of the table occupies bits 4..1, the SECOND one bits 8..5. Spec says
-//     which is which.
+//     of one octet. Per the TS 24.007 rule for type 1 IEs in the mandatory part,
+//     the FIRST half-octet IE of the table occupies bits 4..1 and the SECOND
+//     one bits 8..5. Field.Spec says which is which.
 package nas
 
 // Format of an information element (TS 24.007 clause 11.2.1.1).
@@ -190,8 +190,8 @@ func t3502() OptIE { return tlv("T3502Value", "T3502 value (GPRS timer 2)", 3, 3
 func backoff() OptIE {
 	return tlv("BackoffTimerValue", "Back-off timer value (GPRS timer 3)", 3, 3, 0x37)
 }
-func cause5GMMTV() OptIE { return tv("Cause5GMM", "5GMM cause", 2, 0x58) }
-func cause5GSMTV() OptIE { return tv("Cause5GSM", "5GSM cause", 2, 0x59) }
+func cause5GMMTV() OptIE    { return tv("Cause5GMM", "5GMM cause", 2, 0x58) }
+func cause5GSMTV() OptIE    { return tv("Cause5GSM", "5GSM cause", 2, 0x59) }
 func micoIndication() OptIE { return tv1("MICOIndication", "MICO indication", 0xB) }
 func networkSlicingIndication() OptIE {
 	return tv1("NetworkSlicingIndication", "Network slicing indication", 0x9)
@@ -200,9 +200,11 @@ func nasMessageContainer() OptIE {
 	return tlve("NASMessageContainer", "NAS message container", 4, N, 0x71)
 }
 func guti5G() OptIE { return tlve("GUTI5G", "5G-GUTI (5GS mobile identity)", 14, 14, 0x77) }
-func taiList() OptIE { return tlv("TAIList", "TAI list (5GS tracking area identity list)", 9, 114, 0x54) }
-func allowedNSSAI() OptIE { return tlv("AllowedNSSAI", "Allowed NSSAI", 4, 74, 0x15) }
-func rejectedNSSAI() OptIE { return tlv("RejectedNSSAI", "Rejected NSSAI", 4, 42, 0x11) }
+func taiList() OptIE {
+	return tlv("TAIList", "TAI list (5GS tracking area identity list)", 9, 114, 0x54)
+}
+func allowedNSSAI() OptIE    { return tlv("AllowedNSSAI", "Allowed NSSAI", 4, 74, 0x15) }
+func rejectedNSSAI() OptIE   { return tlv("RejectedNSSAI", "Rejected NSSAI", 4, 42, 0x11) }
 func configuredNSSAI() OptIE { return tlv("ConfiguredNSSAI", "Configured NSSAI", 4, 146, 0x31) }
 func serviceAreaList() OptIE { return tlv("ServiceAreaList", "Service area list", 6, 114, 0x27) }
 func opDefAccessCat() OptIE {
@@ -229,14 +231,14 @@ func alwaysOnIndication() OptIE {
 func alwaysOnRequested() OptIE {
 	return tv1("AlwaysonPDUSessionRequested", "Always-on PDU session requested", 0xB)
 }
-func rqTimer() OptIE { return tv("RQTimerValue", "RQ timer value (GPRS timer)", 2, 0x56) }
+func rqTimer() OptIE        { return tv("RQTimerValue", "RQ timer value (GPRS timer)", 2, 0x56) }
 func capability5GSM() OptIE { return tlv("Capability5GSM", "5GSM capability", 3, 15, 0x28) }
 func maxPacketFilters() OptIE {
 	return tv("MaximumNumberOfSupportedPacketFilters", "Maximum number of supported packet filters", 3, 0x55)
 }
-func congestionReattempt(pos string) OptIE {
+func congestionReattempt() OptIE {
 	return unsure(tlv("CongestionReattemptIndicator5GSM", "5GSM congestion re-attempt indicator", 3, 3, 0x61),
-		"present in later Rel-15 versions of the TS table ("+pos+"), absent from the name list; exact introducing version not verified")
+		"present in later Rel-15 versions of the TS table, absent from the name list; introducing version and exact position in the table not verified")
 }
 
 // ---- header-adjacent mandatory fields ----
@@ -599,7 +601,7 @@ var Messages = []MsgDef{
 			eapTLVE(),
 			epco(),
 		},
-		SpecOnly: []OptIE{congestionReattempt("after Extended protocol configuration options")},
+		SpecOnly: []OptIE{congestionReattempt()},
 	},
 	{
 		Name: "PDUSessionAuthenticationCommand", Clause: "8.3.4", EPD: EPD5GSM, MsgType: 0xC5,
@@ -633,7 +635,7 @@ var Messages = []MsgDef{
 		Name: "PDUSessionModificationReject", Clause: "8.3.8", EPD: EPD5GSM, MsgType: 0xCA,
 		Mandatory: []Field{cause5GSMV()},
 		Optional:  []OptIE{backoff(), epco()},
-		SpecOnly:  []OptIE{congestionReattempt("after Back-off timer value")},
+		SpecOnly:  []OptIE{congestionReattempt()},
 	},
 	{
 		Name: "PDUSessionModificationCommand", Clause: "8.3.9", EPD: EPD5GSM, MsgType: 0xCB,
@@ -670,7 +672,7 @@ var Messages = []MsgDef{
 		Name: "PDUSessionReleaseCommand", Clause: "8.3.14", EPD: EPD5GSM, MsgType: 0xD3,
 		Mandatory: []Field{cause5GSMV()},
 		Optional:  []OptIE{backoff(), eapTLVE(), epco()},
-		SpecOnly:  []OptIE{congestionReattempt("after EAP message")},
+		SpecOnly:  []OptIE{congestionReattempt()},
 	},
 	{
 		Name: "PDUSessionReleaseComplete", Clause: "8.3.15", EPD: EPD5GSM, MsgType: 0xD4,
